@@ -130,7 +130,7 @@ class World:
     # -- stubs
     def fresh_int(self, name, lo=None, hi=None):
         if self.db.concrete_env is not None:
-            return self.db.concrete_env(name, (lo, hi))
+            return self.db.concrete_env(self.db.fresh_name(name), (lo, hi))
         x = self.db.fresh(name)
         if lo is not None:
             self.db.env_constraints.append(x >= lo)
